@@ -50,3 +50,128 @@ pub proof fn lemma_head_schedule_independent<B>(req: &AmendedRequest<B>, phases:
     assert(concat(emitted) + Seq::<u8>::empty() =~= concat(emitted));
 }
 ''')
+
+# ---------------------------------------------------------------------------------------- C04 / C08 / C10 histories
+RAW('''
+use crate::body::{BodyWriter, SenderMode, BodyReader};
+use crate::client::call::sized_step;
+use crate::client::flow::CloseReason;
+
+/// one write of a Content-Length body as the contract of Call<WithBody>::write describes it
+pub struct SizedCall { pub input: Seq<u8>, pub space: nat, pub emitted: Seq<u8>, pub consumed: nat }
+/// a history of accepted writes: writers[i] --calls[i]--> writers[i+1], each satisfying the verified step contract
+pub open spec fn sized_history(writers: Seq<BodyWriter>, calls: Seq<SizedCall>) -> bool {
+    &&& writers.len() == calls.len() + 1
+    &&& forall|i: int| 0 <= i < calls.len() ==> (#[trigger] writers[i]).mode is Sized
+            && sized_step(writers[i], writers[i + 1], calls[i].input, calls[i].space, calls[i].emitted, calls[i].consumed, calls[i].emitted.len())
+}
+pub open spec fn total_consumed(calls: Seq<SizedCall>) -> nat
+    decreases calls.len()
+{ if calls.len() == 0 { 0 } else { total_consumed(calls.drop_last()) + calls.last().consumed } }
+pub open spec fn all_emitted(calls: Seq<SizedCall>) -> Seq<u8>
+    decreases calls.len()
+{ if calls.len() == 0 { Seq::<u8>::empty() } else { all_emitted(calls.drop_last()) + calls.last().emitted } }
+pub open spec fn all_consumed(calls: Seq<SizedCall>) -> Seq<u8>
+    decreases calls.len()
+{ if calls.len() == 0 { Seq::<u8>::empty() } else { all_consumed(calls.drop_last()) + calls.last().input.subrange(0, calls.last().consumed as int) } }
+''')
+PROOF('lemma_sized_history', ['C04', 'C01'], '''
+/// C04: over ANY sequence of writes of a Content-Length N body the bytes on the wire are exactly the bytes
+/// reported consumed, the running total never exceeds N, and the remaining count is N minus the total
+pub proof fn lemma_sized_history(writers: Seq<BodyWriter>, calls: Seq<SizedCall>, n: u64)
+    requires sized_history(writers, calls), writers[0].mode == SenderMode::Sized(n),
+    ensures
+        /*@OBL:C04.history_wire_equals_consumed*/ all_emitted(calls) == all_consumed(calls),
+        /*@OBL:C04.history_total_never_exceeds_n*/ total_consumed(calls) <= n,
+        /*@OBL:C04.history_remaining_is_n_minus_total*/ writers.last().mode == SenderMode::Sized((n - total_consumed(calls)) as u64),
+    decreases calls.len()
+{
+    if calls.len() > 0 {
+        let w2 = writers.drop_last();
+        let c2 = calls.drop_last();
+        assert(sized_history(w2, c2)) by {
+            assert forall|i: int| 0 <= i < c2.len() implies (#[trigger] w2[i]).mode is Sized
+                && sized_step(w2[i], w2[i + 1], c2[i].input, c2[i].space, c2[i].emitted, c2[i].consumed, c2[i].emitted.len()) by {
+                assert(w2[i] == writers[i]); assert(w2[i + 1] == writers[i + 1]); assert(c2[i] == calls[i]);
+            }
+        }
+        lemma_sized_history(w2, c2, n);
+        let k = calls.len() as int;
+        assert(w2.last() == writers[k - 1]);
+        assert(sized_step(writers[k - 1], writers[k], calls[k - 1].input, calls[k - 1].space, calls[k - 1].emitted, calls[k - 1].consumed, calls[k - 1].emitted.len()));
+    }
+}
+''')
+
+RAW('''
+/// one read of a Content-Length response body: (input window, output space, bytes delivered)
+pub struct LenRead { pub window: Seq<u8>, pub space: nat, pub delivered: Seq<u8>, pub consumed: nat }
+/// history of reads; the caller re-presents unconsumed bytes: window[i] is a prefix of stream[pos_i ..]
+pub open spec fn len_history(stream: Seq<u8>, lefts: Seq<u64>, reads: Seq<LenRead>) -> bool {
+    &&& lefts.len() == reads.len() + 1
+    &&& forall|i: int| 0 <= i < reads.len() ==> {
+            let n = min3((#[trigger] reads[i]).window.len() as int, reads[i].space as int, lefts[i] as int);
+            &&& reads[i].consumed == n && reads[i].delivered == reads[i].window.subrange(0, n) && lefts[i + 1] == lefts[i] - n
+            &&& pos_after(reads, i) + reads[i].window.len() <= stream.len()
+            &&& reads[i].window == stream.subrange(pos_after(reads, i) as int, (pos_after(reads, i) + reads[i].window.len()) as int)
+        }
+}
+/// stream position before read i = bytes consumed by reads 0..i
+pub open spec fn pos_after(reads: Seq<LenRead>, i: int) -> nat
+    decreases i
+{ if i <= 0 { 0 } else { pos_after(reads, i - 1) + reads[i - 1].consumed } }
+pub open spec fn all_delivered(reads: Seq<LenRead>, i: int) -> Seq<u8>
+    decreases i
+{ if i <= 0 { Seq::<u8>::empty() } else { all_delivered(reads, i - 1) + reads[i - 1].delivered } }
+''')
+PROOF('lemma_len_history', ['C08', 'C01'], '''
+/// C08: over ANY arrival / buffer schedule the reads of a Content-Length N body deliver exactly the first
+/// bytes of the stream, unchanged and in order, never more than N, and the body is complete exactly at N
+pub proof fn lemma_len_history(stream: Seq<u8>, lefts: Seq<u64>, reads: Seq<LenRead>, n: u64, k: int)
+    requires len_history(stream, lefts, reads), lefts[0] == n, 0 <= k <= reads.len(),
+    ensures
+        /*@OBL:C08.history_delivers_stream_prefix*/ pos_after(reads, k) <= stream.len() && all_delivered(reads, k) == stream.subrange(0, pos_after(reads, k) as int),
+        /*@OBL:C08.history_never_beyond_n*/ pos_after(reads, k) <= n && lefts[k] == n - pos_after(reads, k),
+    decreases k
+{
+    if k > 0 {
+        lemma_len_history(stream, lefts, reads, n, k - 1);
+        let r = reads[k - 1];
+        let p = pos_after(reads, k - 1);
+        assert(r.delivered == r.window.subrange(0, r.consumed as int));
+        assert(r.window.subrange(0, r.consumed as int) =~= stream.subrange(p as int, (p + r.consumed) as int));
+        assert(all_delivered(reads, k) =~= stream.subrange(0, pos_after(reads, k) as int));
+    } else {
+        assert(all_delivered(reads, 0) =~= stream.subrange(0, 0));
+    }
+}
+''')
+
+RAW('''
+/// the four facts that can add a close reason after construction, in the order the flow can meet them
+pub struct CloseFacts { pub not_100: bool, pub server_close: bool, pub close_delimited: bool }
+/// C10: the reason list at the end of an exchange, as the append-or-frame contracts of flow.rs compose
+pub open spec fn final_reasons(base: Seq<CloseReason>, f: CloseFacts) -> Seq<CloseReason> {
+    base + (if f.not_100 { seq![CloseReason::Not100Continue] } else { Seq::<CloseReason>::empty() })
+         + (if f.server_close { seq![CloseReason::ServerConnectionClose] } else { Seq::<CloseReason>::empty() })
+         + (if f.close_delimited { seq![CloseReason::CloseDelimitedBody] } else { Seq::<CloseReason>::empty() })
+}
+''')
+PROOF('lemma_close_trace', ['C10', 'C01'], '''
+/// C10: must-close (list non-empty) iff at least one of the five conditions happened, and the reason given
+/// (the first element) names a condition that did happen; at most five entries (the capacity)
+pub proof fn lemma_close_trace(version: crate::http::Version, headers: Seq<Hdr>, f: CloseFacts)
+    ensures ({
+        let base = crate::client::flow::base_reasons(version, headers);
+        let http10 = version == crate::http::Version::HTTP_10;
+        let client_close = crate::http::has_field(headers, crate::client::amended::lit("connection"), crate::client::amended::lit("close"));
+        let all = final_reasons(base, f);
+        &&& /*@OBL:C10.trace_verdict_is_the_disjunction*/ (all.len() > 0 <==> (http10 || client_close || f.not_100 || f.server_close || f.close_delimited))
+        &&& /*@OBL:C10.trace_capacity*/ all.len() <= 5
+        &&& /*@OBL:C10.trace_first_reason_holds*/ (all.len() > 0 ==> match all[0] {
+                CloseReason::Http10 => http10, CloseReason::ClientConnectionClose => client_close, CloseReason::Not100Continue => f.not_100,
+                CloseReason::ServerConnectionClose => f.server_close, CloseReason::CloseDelimitedBody => f.close_delimited })
+    })
+{
+}
+''')
